@@ -350,7 +350,7 @@ def helper_stream(ctx, torch, report, notes):
                 x = torch.tensor(float(c), dtype=torch.float64, requires_grad=True)
                 (gate.apply(x, th) * float(g0)).backward()
                 gx = Fraction(float(x.grad))
-                pairs.append(('gate_grad %s %s %s' % (coq(Fraction(c)), coq(Fraction(th)), coq(g0)), gx, ('GateSTE.backward', str(c), th, str(g0))))
+                pairs.append(('gate_grad %s %s %s' % (coq(Fraction(c)), coq(Fraction(th)), coq(g0)), gx, ('GateSTE.backward', str(c), th, str(g0), 'float32')))
     return pairs
 
 
@@ -503,7 +503,7 @@ def run(ctx):
                 metas.append({'model': F.model, 'envlit': envlit, 'case': {'fn': F.id, 'env': jenv(e), 'impl': v, 'exception': exc}})
             for ex, v, meta in hpairs:
                 mt = '(fun _ => Some (%s))' % ex
-                lits.append('(%s, [], %s, %s)' % (mt, coq(some(v)), coq(Fraction(0))))
+                lits.append('(%s, [], %s, %s)' % (mt, coq(some(v)), coq(TOL20 if meta[-1] == 'float32' else Fraction(0))))
                 metas.append({'model': mt, 'envlit': '[]', 'case': {'helper': meta, 'impl': float(v)}})
             SH = 500
             exprs = ['run_cases [%s]' % ';\n '.join(lits[i:i + SH]) for i in range(0, len(lits), SH)]
